@@ -41,29 +41,28 @@ Inductive eff := EAlias (i : nat) | EMutate (i : nat).
 
 Inductive op :=
   | Clean (code : nat)
-      (* every output variable goes through copyVariable / createVariable(...)[...] = values:
+      (* transformations all of whose output variables go through copyVariable / createVariable(...)[...] = values:
          copy, subsetVariables, sliceDimensions, applyAlongDimensions, renameVariable, renameDimension, insertDimension,
-         reorderDimensions, removeSingleton, stack, mask, f + g (pncbo), eval of a computed expression,
-         and the queries getTimes(time variable), date2num, time2idx, val2idx(nearest), repr/dump, save *)
+         reorderDimensions, removeSingleton, stack, mask, f + g (pncbo), eval of a computed expression *)
+  | Query (code : nat)
+      (* queries: getTimes (time variable, TFLAG, bounds), date2num, time2idx, val2idx (nearest, bounds), repr, dump, save.
+         They return no file and write nothing in place.  Two of them did before their repairs and are watched by the
+         correspondence on exactly those inputs: getTimes on a TFLAG holding -635 wrote 1970001 through a view
+         (fix C05-getTimes-copy: `.copy()`), val2idx / time2idx(method='bounds') on a uniform float coordinate without
+         bounds variable did `start -= dval[0]; end += dval[-1]` on views of the coordinate (fix: `.astype('d')` copies). *)
   | EvalName (src : nat)          (* eval('B = A')      : outf.variables['B'] = vardict['A'], the input's own array *)
   | EvalView (src : nat)          (* eval('B = A[...]') : a view carrying dimensions is stored as is *)
   | Getvarpnc (coords : list nat) (* getvarpnc(f, keys): coordinate variables are created with values=coordvar[...] *)
-  | SliceDim (sliced : list nat)  (* slice_dim(f, 'd,a,b'): outf.variables[k] = var[...].swapaxes(..)[a:b].swapaxes(..) *)
-  | GetTimesTflag (membacked has635 : bool) (tflag : nat)
-      (* getTimes() TFLAG branch: dates = TFLAG[:][:, 0, 0]; dates[dates == -635] = 1970001 *)
-  | Val2idxBounds (membacked has_bounds_var uniform inexact : bool) (coord : nat).
-      (* val2idx(method='bounds') without bounds variable: start = dimvals[:1]; start -= dval[0]; end += dval[-1]
-         (only when the spacing is uniform; an integer coordinate makes the in-place subtraction raise instead) *)
+  | SliceDim (sliced : list nat). (* slice_dim(f, 'd,a,b'): outf.variables[k] = var[...].swapaxes(..)[a:b].swapaxes(..) *)
 
 Definition impl_effs (o : op) : list eff :=
   match o with
   | Clean _ => []
+  | Query _ => []
   | EvalName s => [EAlias s]
   | EvalView s => [EAlias s]
   | Getvarpnc cs => map EAlias cs
   | SliceDim vs => map EAlias vs
-  | GetTimesTflag mem has635 t => if mem && has635 then [EMutate t] else []
-  | Val2idxBounds mem hb uni inexact c => if mem && negb hb && uni && inexact then [EMutate c] else []
   end.
 
 Definition spec_effs (o : op) : list eff := [].
